@@ -149,11 +149,20 @@ class Exec:
         self.cascade_n = 0
         self.late = []
         self.depth_nesting = 0
+        self.stack = []          # (wid, queued) of the callbacks running now
+        self.not_nested = []     # assignments made by a callback whose watchers had not run when the assignment returned
 
     def make_cb(self, wid):
         ws = self.wspecs[wid]
 
         def cb(*events):
+            self.stack.append((wid, ws['queued']))
+            try:
+                return body(*events)
+            finally:
+                self.stack.pop()
+
+        def body(*events):
             self.invocations += 1
             mine = self.invocations
             self.log.append((wid, [(e.name, e.new, e.type) for e in events]))
@@ -169,7 +178,15 @@ class Exec:
                 self.cascade_n += 1
                 v = (5 + self.cascade_n) % 10 if target == 'n' else ('c', wid, self.cascade_n)
                 self.touch(target, v)
+                n_log = len(self.log)
                 setattr(self.o, target, v)
+                if target != 'n' and not any(q for _, q in self.stack):
+                    # an assignment (of a new object) made by a callback that is not deferred itself, nor running on behalf
+                    # of a deferred one, is announced before the assignment returns - also while a failure is being handled
+                    told = {w_ for w_, evs in self.log[n_log:] if any(e[0] == target for e in evs)}
+                    for w2, ws2 in enumerate(self.wspecs):
+                        if target in ws2['names'] and not ws2['queued'] and w2 not in told:
+                            self.not_nested.append((wid, target, w2))
             if fault is not None:
                 self.fired.append(fault)
                 raise Boom(f'watcher invocation {mine} (after its own assignments)')
@@ -448,6 +465,13 @@ def run_case(idx, rng, P, rep):
     cls = make_class(param, idx)
     nw = rng.randint(1, 4)
     wspecs = []
+    if rng.random() < 0.15:
+        # a chain: a deferred watcher that assigns and may then fail -> an ordinary watcher that assigns in turn -> a watcher
+        wspecs = [dict(names=['a'], onlychanged=False, queued=True, precedence=0, sets=['b'], raise_after_actions=True),
+                  dict(names=['b'], onlychanged=rng.random() < 0.5, queued=False, precedence=0, sets=['c'], raise_after_actions=False),
+                  dict(names=['c'], onlychanged=False, queued=False, precedence=rng.choice([0, 1]))]
+        nw = rng.randint(0, 1)
+        rep.count('watcher_chains')
     for _ in range(nw):
         names = rng.sample(NAMES + ['n', 'e'], rng.randint(1, 3))
         ws = dict(names=names, onlychanged=rng.random() < 0.6, queued=rng.random() < 0.25, precedence=rng.choice([0, 0, 1, 2]))
@@ -478,6 +502,8 @@ def run_case(idx, rng, P, rep):
     desc = dict(watchers=wspecs, program=repr(prog)[:1500])
     if ex0.late:
         rep.violation('C05/no-fault/late-or-foreign-delivery', f'fault-free run delivered {ex0.late[:2]}', case=desc)
+    if ex0.not_nested:
+        rep.violation('C05/no-fault/assignment-by-callback-not-announced-before-it-returned', f'fault-free run: {ex0.not_nested[:2]}', case=desc)
 
     plans = [[s] for s in sites]
     for _ in range(P['double']):
@@ -523,6 +549,11 @@ def run_case(idx, rng, P, rep):
             if getattr(ex, 'locked_inside_block', None):
                 viol('constant-locked-inside-open-edit_constant', f'inside an open edit_constant block (after a nested step had failed or a '
                      f'nested block had exited) the constant could not be set: {ex.locked_inside_block}')
+            if ex.not_nested:
+                (w1, tgt, w2) = ex.not_nested[0]
+                viol('assignment-by-callback-not-announced-before-it-returned', f'watcher {w1} (not deferred, no deferred callback running) '
+                     f'assigned {tgt}; when the assignment returned watcher {w2} of {tgt} had not been told (faults fired: {ex.fired})')
+            rep.count('nested_assignment_checks', ex.cascade_n)
             if ex.late and not in_batch:
                 (i, opk, wid, name, val) = ex.late[0]
                 viol('late-announcement', f'during top-level op {i} ({opk}) watcher {wid} received an event for {name}={val!r} that belongs '
